@@ -52,7 +52,7 @@ class C06(Check):
     required_counters = ("worlds_run", "messages_exchanged", "wildcard_matches_with_choice", "tasks_checked_exactly_once",
                          "root_results_compared")
     shards = (14, 16)
-    budget = (120, 900)
+    budget = (300, 900)
 
     def cases(self, tier, seed):
         q = tier == "quick"
